@@ -208,15 +208,15 @@ func New(c *Choices, cfg Config) *Sched {
 		cfg.MaxSim = 1000 * time.Hour
 	}
 	return &Sched{
-		C:          c,
-		cfg:        cfg,
-		wakeCh:     make(chan struct{}, 1),
-		start:      time.Now(),
-		Probes:     map[string]int{},
-		Faults:     map[string]int{},
-		maps:       map[unsafe.Pointer]*mapInfo{},
-		nextPid:    1000,
-		hash:       14695981039346656037,
+		C:       c,
+		cfg:     cfg,
+		wakeCh:  make(chan struct{}, 1),
+		start:   time.Now(),
+		Probes:  map[string]int{},
+		Faults:  map[string]int{},
+		maps:    map[unsafe.Pointer]*mapInfo{},
+		nextPid: 1000,
+		hash:    14695981039346656037,
 	}
 }
 
